@@ -21,6 +21,7 @@ namespace {
       std::vector<const ipr::Name*> names { nullptr };       // 1-based: identifiers, then names of built-in types
       std::vector<const ipr::Type*> types { nullptr };       // 1-based: built-in, function, forall, the enum
       std::vector<const ipr::Expr*> inits { nullptr };       // initialiser of type t for aliases
+      impl::Handler* handler = nullptr;                      // scope 6: the region of this handler's exception parameter
       impl::Scope* hetero[3] { };
       impl::Class* klass = nullptr;
       impl::Mapping* mapping = nullptr;
@@ -60,6 +61,7 @@ namespace {
          case 3: return mapping->parameters().region().bindings();
          case 4: return enumeration->region().bindings();
          case 5: return derived->base_subobjects.bindings();
+         case 6: if (handler != nullptr) return static_cast<const ipr::Handler&>(*handler).body().region().enclosing().bindings(); break;
          }
          throw vh::HarnessError("bad scope");
       }
@@ -91,6 +93,11 @@ namespace {
          else if (s == 3 and kind == "param") d = mapping->param(nm, ty);
          else if (s == 4 and kind == "enumerator") d = enumeration->add_member(nm);
          else if (s == 5 and kind == "base") d = derived->declare_base(ty);
+         else if (s == 6 and kind == "ehparam") {
+            // the exception parameter comes with the handler; its region is the scope observed as scope 6
+            handler = lex.make_block(*unit.global_region())->new_handler(nm, ty);
+            d = &static_cast<const ipr::Handler&>(*handler).exception();
+         }
          if (d == nullptr) throw vh::HarnessError("cannot declare " + kind + " in scope " + std::to_string(s));
          if (decl_id.count(d)) return -3;                 // an existing declaration was returned
          decls.push_back(d);
@@ -178,6 +185,7 @@ namespace {
       // "is the name taken?", asked just before a declaration is entered
       Value pre_query(int s, int n, int t)
       {
+         if (s == 6 and handler == nullptr) { auto a = Value::array(); a.push(0).push(0); return a; }     // no handler yet: nothing is bound
          auto& sc = scope(s);
          auto a = Value::array();
          a.push(guarded([&] { return Value{sc[*names.at(n)].is_valid() ? 1 : 0}; })).push(select_one(sc, n, t));
@@ -342,9 +350,10 @@ namespace {
          Stage st { nn, nt };
          st.with_init = false;
          std::map<std::pair<int, int>, std::string> kind_of[3];      // (n,t) -> kind, per hetero scope
-         std::set<int> used[6];
+         std::set<int> used[7];
+         bool handler_made = false;
          for (int k = 0; k < len; ++k) {
-            int s = below(100) < 70 ? 1 + below(2) : 3 + below(3);
+            int s = below(100) < 70 ? 1 + below(2) : 3 + below(4);
             std::string kind;
             int n = 1 + below(nn), t = 1 + below(nt);
             if (s <= 2) {
@@ -357,7 +366,8 @@ namespace {
             }
             else if (s == 3) kind = "param";
             else if (s == 4) { kind = "enumerator"; t = 3 * nt + 1; }
-            else { kind = "base"; n = nn + t; }
+            else if (s == 5) { kind = "base"; n = nn + t; }
+            else { if (handler_made) continue; kind = "ehparam"; handler_made = true; }
             if (s >= 3) { if (used[s].count(n)) continue; used[s].insert(n); }
             auto ev = Value::object();
             auto pre = st.pre_query(s, n, t);
